@@ -43,7 +43,9 @@ func (e *Exec) doCall(ins ssa.CallInstruction, guard string) Value {
 		key := typeKeyFull(c.Value.Type())
 		con := e.CS.ByKey[key]
 		if con == nil {
-			panic(missingContract{key, e.Key})
+			// a call through a function value whose target is not known here and whose type has no contract:
+			// weakest contract (anything may change, anything is returned)
+			con = e.unknownExtern(key)
 		}
 		return e.applyContract(con, nil, c.Signature(), args, guard, "")
 	}
